@@ -26,7 +26,7 @@ pub fn st_imc0_all(s: &mut [fx::W; 8]) {
     fx::stub_imc0_all(s)
 }
 
-//@ harness name=hz_cipher_round prop=C17,C20 tier=quick bits=256 est=35 desc="D: hazmat::cipher_round(b, k) == MixColumns(ShiftRows(SubBytes(b))) XOR k (FIPS-197 oracle, generated S-box); all 2^128 blocks x 2^128 round keys; real fixsliced S-box circuit"
+//@ harness name=hz_cipher_round prop=C17,C20 tier=quick bits=256 est=40 desc="D: hazmat::cipher_round(b, k) == MixColumns(ShiftRows(SubBytes(b))) XOR k (FIPS-197 oracle, generated S-box); all 2^128 blocks x 2^128 round keys; real fixsliced S-box circuit"
 verif_harness! {
     name: hz_cipher_round,
     bytes: 32,
@@ -39,7 +39,7 @@ verif_harness! {
         Some(b.0 == ra::xor(&ra::round_core(&blk), &key))
     }
 }
-//@ harness name=hz_equiv_inv_cipher_round prop=C17,C20 tier=quick bits=256 est=45 desc="D: hazmat::equiv_inv_cipher_round(b, k) == InvMixColumns(InvShiftRows(InvSubBytes(b))) XOR k; all blocks x all round keys; real inverse S-box circuit vs the generated inverse S-box table; InvMixColumns of the oracle in the byte form imc_ks(., 0), proved equal to the FIPS-197 matrix by fx_imc_model (the direct comparison with the 0e/0b/0d/09 matrix is a wide-parity equivalence that does not finish)"
+//@ harness name=hz_equiv_inv_cipher_round prop=C17,C20 tier=quick bits=256 est=55 desc="D: hazmat::equiv_inv_cipher_round(b, k) == InvMixColumns(InvShiftRows(InvSubBytes(b))) XOR k; all blocks x all round keys; real inverse S-box circuit vs the generated inverse S-box table; InvMixColumns of the oracle in the byte form imc_ks(., 0), proved equal to the FIPS-197 matrix by fx_imc_model (the direct comparison with the 0e/0b/0d/09 matrix is a wide-parity equivalence that does not finish)"
 verif_harness! {
     name: hz_equiv_inv_cipher_round,
     bytes: 32,
@@ -67,7 +67,7 @@ verif_harness! {
         Some(i.0 == fx::imc_ks(&blk, 0))
     }
 }
-//@ harness name=hz_mix_inverse prop=C17 tier=quick bits=268 est=65 desc="oracle lemma, FIPS MixColumns M and InvMixColumns I are mutual inverses: (a) M(x^y) == M(x)^M(y) and I(x^y) == I(x)^I(y) for all 2^128 x 2^128 pairs, (b) I(M(e)) == e and M(I(e)) == e for every state e with a single non-zero byte (position and value symbolic); every state is the XOR of its 16 single-byte components, so (a)+(b) give I o M == M o I == id (the direct 128-bit composition query is a wide-parity equivalence that does not finish in 900 s).  With hz_mix_columns + fx_mc_model + fx_imc_model: hazmat::mix_columns / inv_mix_columns are the FIPS column mixes and mutual inverses"
+//@ harness name=hz_mix_inverse prop=C17 tier=quick bits=268 est=70 desc="oracle lemma, FIPS MixColumns M and InvMixColumns I are mutual inverses: (a) M(x^y) == M(x)^M(y) and I(x^y) == I(x)^I(y) for all 2^128 x 2^128 pairs, (b) I(M(e)) == e and M(I(e)) == e for every state e with a single non-zero byte (position and value symbolic); every state is the XOR of its 16 single-byte components, so (a)+(b) give I o M == M o I == id (the direct 128-bit composition query is a wide-parity equivalence that does not finish in 900 s).  With hz_mix_columns + fx_mc_model + fx_imc_model: hazmat::mix_columns / inv_mix_columns are the FIPS column mixes and mutual inverses"
 verif_harness! {
     name: hz_mix_inverse,
     bytes: 34,
@@ -97,7 +97,7 @@ fn blocks8(inp: &[u8], off: usize) -> ([[u8; 16]; 8], hz::Block8) {
     }
     (x, a)
 }
-//@ harness name=hz_cipher_round_par prop=C17,C20 tier=quick bits=2048 stub=1 est=145 need=8 desc="W: hazmat::cipher_round_par(blocks, keys): output i == MixColumns(ShiftRows(SubBytes(block i))) XOR key i for i = 0..7 (eight independent single rounds, respective keys); all 8 blocks and 8 keys symbolic; S-box uninterpreted on every lane (shared with the oracle), mix_columns_0 replaced by its proved specification MixColumns per block; bitslice, shift_rows_1, sub_bytes_nots, key XOR real"
+//@ harness name=hz_cipher_round_par prop=C17,C20 tier=quick bits=2048 stub=1 est=165 need=8 desc="W: hazmat::cipher_round_par(blocks, keys): output i == MixColumns(ShiftRows(SubBytes(block i))) XOR key i for i = 0..7 (eight independent single rounds, respective keys); all 8 blocks and 8 keys symbolic; S-box uninterpreted on every lane (shared with the oracle), mix_columns_0 replaced by its proved specification MixColumns per block; bitslice, shift_rows_1, sub_bytes_nots, key XOR real"
 verif_harness! {
     name: hz_cipher_round_par,
     bytes: 256,
@@ -117,7 +117,7 @@ verif_harness! {
         Some(ok)
     }
 }
-//@ harness name=hz_equiv_inv_cipher_round_par prop=C17,C20 tier=quick bits=2048 stub=1 est=160 need=9 desc="W: hazmat::equiv_inv_cipher_round_par(blocks, keys): output i == InvMixColumns(InvShiftRows(InvSubBytes(block i))) XOR key i for i = 0..7; all 8 blocks and keys; inverse S-box uninterpreted on every lane (shared with the oracle), mix_columns_0 replaced by its proved specification MixColumns per block; bitslice, shift_rows_1, sub_bytes_nots, key XOR real"
+//@ harness name=hz_equiv_inv_cipher_round_par prop=C17,C20 tier=quick bits=2048 stub=1 est=215 need=9 desc="W: hazmat::equiv_inv_cipher_round_par(blocks, keys): output i == InvMixColumns(InvShiftRows(InvSubBytes(block i))) XOR key i for i = 0..7; all 8 blocks and keys; inverse S-box uninterpreted on every lane (shared with the oracle), mix_columns_0 replaced by its proved specification MixColumns per block; bitslice, shift_rows_1, sub_bytes_nots, key XOR real"
 verif_harness! {
     name: hz_equiv_inv_cipher_round_par,
     bytes: 256,
